@@ -24,9 +24,47 @@ for s, v in sorted(new.items()):
     print(v["prop"], s, "n=%d" % v["n"], v["logs"][:3])
     print("     ", v["input"][:300])
 print(len(found), "signatures in logs,", len(new), "not yet known")
+CATEGORY = {
+    "C01:structure_rule_diff_is_documented_kind": "a structure rule added/removed code tokens of an undocumented kind",
+    "C01:code_tokens_same_objects_outside_phase1": "a non-structural rule replaced, dropped or merged code tokens",
+    "C02:comment_followed_by_line_break": "a line-joining rule left a '--' comment without its line break: the comment swallows the code that followed",
+    "C02:comments_survive": "a comment/pragma token was lost, duplicated or altered by a rule that is not documented to remove comments",
+    "C03:phase3_rule_changes_layout_only": "a blank-line rule changed more than layout",
+    "C07:unreported_line_untouched": "a layout/case rule changed a line it did not report",
+    "C07:reported_line_changed": "a layout/case rule reported a line that its fix left unchanged",
+    "C08:reparse_same_token_count": "the model after fixing holds tokens that a fresh parse of the written text merges/splits differently",
+    "C08:reparse_same_roles": "a token created or kept by a fix carries a class the classifier does not assign to the same text",
+    "C08:reparse_same_values": "token text of model and re-parsed file differ",
+    "C08:reparse_same_indent": "indent level of a token differs between the model after fixing and a fresh parse of the written text",
+    "C08:report_after_fix_equals_fresh_check": "the violations of the model after fixing differ from those of a fresh check of the written text",
+    "C08:fixed_text_is_accepted": "the text written by --fix is rejected by VSG's own parser",
+    "C09:fixed_text_is_accepted": "the text written by --fix is rejected by VSG's own parser",
+    "C09:second_fix_changes_nothing": "a second --fix changes the output of the first (slow convergence or oscillation)",
+    "C10:second_fix_changes_nothing": "the rule's fix applied twice in a row differs from applying it once",
+    "C18:token_map_matches_token_list": "the token index is stale when a rule obtains its tokens of interest",
+    "C18:region_of_interest_is_slice": "a region of interest does not sit at its recorded start index",
+    "C06:independent_of_other_rules": "a rule reports differently alone than inside the full rule set",
+    "C11:violation_reported_on_tagged_token": "a rule reports on a line that a code tag switched off for it (tokens re-created by a phase-1 fix lose their code tags)",
+    "C11:tagged_token_untouched_by_its_rule": "a rule fixes a line that a code tag switched off for it (tokens re-created by a phase-1 fix lose their code tags)",
+}
+
+
+def describe(sig, v):
+    m = re.search(r":vc:(C\d\d:[a-z_0-9]+)(?:@([a-z_0-9]+))?", sig)
+    if m:
+        cat = CATEGORY.get(m.group(1), m.group(1))
+        rule = " [%s]" % m.group(2) if m.group(2) else ""
+        where = "a layout variant (line breaks / comments inserted by the check)" if "layout-variant" in sig else "the corpus fixture"
+        return "%s%s on %s; first input: %s" % (cat, rule, where, v["input"][:300])
+    m = re.search(r":exception:(\w+)@(.*)$", sig)
+    if m:
+        return "%s escapes from %s (delimited comments or line breaks at positions the classifier / extractors do not expect); first input: %s" % (m.group(1), m.group(2), v["input"][:300])
+    return "found by a sweep of the checks over the unchanged tree; first input: %s" % v["input"][:300]
+
+
 if "--merge" in sys.argv:
     for s, v in sorted(new.items()):
         known["findings"].append({"status": "known", "property": v["prop"], "harness": s.split(":")[0], "signature": s, "origin": "sweep",
-                                  "what": "found by a sweep of the checks over the unchanged tree (layout variation / broader selection); first input: %s" % v["input"][:300]})
+                                  "what": describe(s, v)})
     json.dump(known, open(kp, "w"), indent=1)
     print("merged", len(new))
